@@ -625,6 +625,7 @@ func namesQuoted(text, name string) bool {
 
 func runC14(c *Ctx) {
 	runC14InformerCache(c)
+	runC14AdmissionVerbose(c)
 	n := 600
 	if c.Thorough {
 		n = 8000
